@@ -232,7 +232,12 @@ func runC05(r *lib.Run) {
 				a := lib.NewGen(cfg, r.Seed, i, c05Opts(i)).Tree()
 				var b ygot.GoStruct
 				kind := ""
-				switch i % 5 {
+				switch i % 6 {
+				case 5:
+					kind = "leaflist-overlap"
+					g := lib.NewGen(cfg, r.Seed, i, c05Opts(i))
+					b = g.Tree()
+					g.LeafListOverlaps(b, 0.3)
 				case 0:
 					kind = "subset"
 					b = c05Subset(cfg, r.Seed, i, c05Opts(i))
@@ -261,7 +266,7 @@ func runC05(r *lib.Run) {
 			c05Pair(r, cfg, i, mk)
 		}
 	}
-	r.RequireCov("outcome:ok", "outcome:conflict", "overwrite:ok", "swap:ok", "pair:subset", "pair:independent")
+	r.RequireCov("outcome:ok", "outcome:conflict", "overwrite:ok", "swap:ok", "pair:subset", "pair:independent", "pair:leaflist-overlap", "conflict:leaf-list-overlap")
 }
 
 func c05Pair(r *lib.Run, cfg *lib.Cfg, idx int, mk func() (ygot.GoStruct, ygot.GoStruct, string)) {
